@@ -520,7 +520,9 @@ func c39rSpecs(thorough bool) []c39rSpec {
 	// ---- GCounter
 	gInc := func(v uint64) c39rOp {
 		return c39rOp{name: fmt.Sprintf("inc%d", v),
-			apply: func(s crdt.ReplicatedData, rep int) crdt.ReplicatedData { return s.(*crdt.GCounter).Increment(c39rNode(rep), v) },
+			apply: func(s crdt.ReplicatedData, rep int) crdt.ReplicatedData {
+				return s.(*crdt.GCounter).Increment(c39rNode(rep), v)
+			},
 			model: func(m any, rep int) (any, any) {
 				n := c39rCopyU(m.(c39rGC).s)
 				n[c39rNode(rep)] += v
